@@ -45,7 +45,7 @@ def peer_lengths(rng, data: bytes, depth=0) -> bytes:
         content = data[pos + hl : pos + hl + ln]
         if cons and depth < 3 and rng.random() < 0.5:
             content = peer_lengths(rng, content, depth + 1)
-        form = rng.choice([4, 4, 2, 1, 3]) if (depth == 0 or rng.random() < 0.3) else 0
+        form = rng.choice([4, 4, 2, 1, 3, 5, 8]) if (depth == 0 or rng.random() < 0.3) else 0
         out += ber.tlv(cls, cons, num, content, form)
         pos += hl + ln
     return out
